@@ -305,6 +305,15 @@ theorem kgood_union (ts : Tys) (tag : Nat) (inner : Val) (m : Ty)
   simp [expA, Except.bind, convertUnion, hmn, hidx, Except.map, strip]
 
 
+theorem kgood_error (u : Ty) (v' : Val) (hpu : plainTy u = true) (hI : KGood u v') :
+    KGood (.error u) (.error v') := by
+  intro d fst a0 c hc
+  have hun : unionMembers c.under = none := by rw [hc.1]; rfl
+  obtain ⟨any, ds, hf, _, hB⟩ := hI false fst a0 u (CastOf.refl u hpu)
+  refine ⟨.error (mkVal any ds), [], by simp [fmtValue, hf, finish_known], by simp, ?_⟩
+  simp [convertValue, viaUnion, hun, hc.1, unionMembers, convertAny, hB, strip, bind, Except.bind, pure,
+    Except.pure]
+
 theorem noUnionElemsT_get : (ts : Tys) → (n : Nat) → (m : Ty) → noUnionElemsT ts = true → ts.get? n = some m →
     noUnionElems m = true
   | .cons t r, 0, m, h, hg => by
@@ -318,51 +327,51 @@ theorem noUnionElemsT_get : (ts : Tys) → (n : Nat) → (m : Ty) → noUnionEle
 
 mutual
 theorem kgood_all : (v : Val) → ∀ (t : Ty), plainTy t = true → wfTy t = true → noUnionElems t = true →
-    wfVal t v = true → KGood t v
-  | .null, t, hp, _, _, _ => kgood_null t hp
-  | .prim text, t, _, _, _, hv => by
+    wfVal t v = true → errOK v = true → KGood t v
+  | .null, t, hp, _, _, _, _ => kgood_null t hp
+  | .prim text, t, _, _, _, hv, _ => by
     cases t with
     | prim id => exact kgood_prim id text hv
     | _ => simp [wfVal] at hv
-  | .typeval ty, t, _, _, _, hv => by
+  | .typeval ty, t, _, _, _, hv, _ => by
     cases t with
     | prim id => exact kgood_typeval id ty hv
     | _ => simp [wfVal] at hv
-  | .enum sel, t, _, hw, _, hv => by
+  | .enum sel, t, _, hw, _, hv, _ => by
     cases t with
     | enum syms => exact kgood_enum syms sel hw hv
     | _ => simp [wfVal] at hv
-  | .record vs, t, hp, hw, hk, hv => by
+  | .record vs, t, hp, hw, hk, hv, he => by
     cases t with
     | record fs =>
       exact kgood_record fs vs hp hv (kgoodFields_all vs fs (by simpa [plainTy] using hp)
         (by simp only [wfTy, Bool.and_eq_true] at hw; exact hw.1) (by simpa [noUnionElems] using hk)
-        (by simpa [wfVal] using hv))
+        (by simpa [wfVal] using hv) (by simpa [errOK] using he))
     | _ => simp [wfVal] at hv
-  | .array vs, t, hp, hw, hk, hv => by
+  | .array vs, t, hp, hw, hk, hv, he => by
     cases t with
     | array et =>
       simp only [noUnionElems, Bool.and_eq_true, Bool.not_eq_true'] at hk
       exact kgood_array et vs hp hk.1 (kgoodElems_all vs et (by simpa [plainTy] using hp) (by simpa [wfTy] using hw)
-        hk.2 hk.1 (by simpa [wfVal] using hv))
+        hk.2 hk.1 (by simpa [wfVal] using hv) (by simpa [errOK] using he))
     | _ => simp [wfVal] at hv
-  | .set vs, t, hp, hw, hk, hv => by
+  | .set vs, t, hp, hw, hk, hv, he => by
     cases t with
     | set et =>
       simp only [noUnionElems, Bool.and_eq_true, Bool.not_eq_true'] at hk
       exact kgood_set et vs hp hk.1 (kgoodElems_all vs et (by simpa [plainTy] using hp) (by simpa [wfTy] using hw)
-        hk.2 hk.1 (by simpa [wfVal] using hv))
+        hk.2 hk.1 (by simpa [wfVal] using hv) (by simpa [errOK] using he))
     | _ => simp [wfVal] at hv
-  | .map es, t, hp, hw, hk, hv => by
+  | .map es, t, hp, hw, hk, hv, he => by
     cases t with
     | map kt vt =>
       simp only [noUnionElems, Bool.and_eq_true, Bool.not_eq_true'] at hk
       have hp' : plainTy kt = true ∧ plainTy vt = true := by simpa [plainTy] using hp
       have hw' : wfTy kt = true ∧ wfTy vt = true := by simpa [wfTy] using hw
       exact kgood_map kt vt es hp hk.1.1.1 hk.1.1.2 (kgoodEntries_all es kt vt hp'.1 hp'.2 hw'.1 hw'.2
-        hk.1.2 hk.2 hk.1.1.1 hk.1.1.2 (by simpa [wfVal] using hv))
+        hk.1.2 hk.2 hk.1.1.1 hk.1.1.2 (by simpa [wfVal] using hv) (by simpa [errOK] using he))
     | _ => simp [wfVal] at hv
-  | .union tag inner, t, hp, hw, _, hv => by
+  | .union tag inner, t, hp, hw, _, hv, he => by
     cases t with
     | union ts =>
       simp only [wfVal, Bool.and_eq_true, bne_iff_ne, ne_eq] at hv
@@ -372,23 +381,30 @@ theorem kgood_all : (v : Val) → ∀ (t : Ty), plainTy t = true → wfTy t = tr
         simp only [hg] at hv
         have hpm := plainTys_get ts tag m (by simpa [plainTy] using hp) hg
         have hwm := wfTys_get ts tag m (by simp only [wfTy, Bool.and_eq_true] at hw; exact hw.1.1) hg
-        exact kgood_union ts tag inner m hw hg hv.1 hv.2 (goodV_all inner m false hpm hwm hv.2)
+        exact kgood_union ts tag inner m hw hg hv.1 hv.2
+          (goodV_all inner m false hpm hwm hv.2 (by simpa [errOK] using he))
     | _ => simp [wfVal] at hv
-  | .error v, t, hp, _, _, hv => by
+  | .error v, t, hp, hw, hk, hv, he => by
     cases t with
-    | error u => simp [plainTy] at hp
+    | error u =>
+      simp only [wfVal, Bool.and_eq_true] at hv
+      simp only [errOK, Bool.and_eq_true] at he
+      have hpu : plainTy u = true := by simpa [plainTy] using hp
+      exact kgood_error u v hpu (kgood_all v u hpu (by simpa [wfTy] using hw) (by simpa [noUnionElems] using hk)
+        hv.2 he.2)
     | _ => simp [wfVal] at hv
-  | .named v, t, hp, _, _, hv => by
+  | .named v, t, hp, _, _, hv, _ => by
     cases t with
     | named n u => simp [plainTy] at hp
     | _ => simp [wfVal] at hv
 theorem kgoodFields_all : (vs : Vals) → ∀ (fs : Fields), plainFields fs = true → wfFields fs = true →
-    noUnionElemsF fs = true → wfVals fs vs = true → KGoodFields fs vs
-  | .nil, fs, _, _, _, hv => by
+    noUnionElemsF fs = true → wfVals fs vs = true → errOKs vs = true → KGoodFields fs vs
+  | .nil, fs, _, _, _, hv, _ => by
     cases fs with
     | nil => exact kgoodFields_nil
     | cons _ _ _ => simp [wfVals] at hv
-  | .cons v vr, fs, hp, hw, hk, hv => by
+  | .cons v vr, fs, hp, hw, hk, hv, he => by
+    simp only [errOKs, Bool.and_eq_true] at he
     cases fs with
     | nil => simp [wfVals] at hv
     | cons n t fr =>
@@ -396,22 +412,27 @@ theorem kgoodFields_all : (vs : Vals) → ∀ (fs : Fields), plainFields fs = tr
       simp only [wfFields, Bool.and_eq_true] at hw
       simp only [noUnionElemsF, Bool.and_eq_true] at hk
       simp only [wfVals, Bool.and_eq_true] at hv
-      exact kgoodFields_cons n t fr v vr hp.1.1 (kgood_all v t hp.1.1 hw.1 hk.1 hv.1)
-        (kgoodFields_all vr fr hp.2 hw.2 hk.2 hv.2)
+      exact kgoodFields_cons n t fr v vr hp.1.1 (kgood_all v t hp.1.1 hw.1 hk.1 hv.1 he.1)
+        (kgoodFields_all vr fr hp.2 hw.2 hk.2 hv.2 he.2)
 theorem kgoodElems_all : (vs : Vals) → ∀ (et : Ty), plainTy et = true → wfTy et = true →
-    noUnionElems et = true → et.isUnion = false → wfElems et vs = true → KGoodElems et vs
-  | .nil, et, _, _, _, _, _ => kgoodElems_nil et
-  | .cons v vr, et, hp, hw, hk, hu, hv => by
+    noUnionElems et = true → et.isUnion = false → wfElems et vs = true → errOKs vs = true → KGoodElems et vs
+  | .nil, et, _, _, _, _, _, _ => kgoodElems_nil et
+  | .cons v vr, et, hp, hw, hk, hu, hv, he => by
     simp only [wfElems, Bool.and_eq_true] at hv
-    exact kgoodElems_cons et v vr hp hu (kgood_all v et hp hw hk hv.1) (kgoodElems_all vr et hp hw hk hu hv.2)
+    simp only [errOKs, Bool.and_eq_true] at he
+    exact kgoodElems_cons et v vr hp hu (kgood_all v et hp hw hk hv.1 he.1)
+      (kgoodElems_all vr et hp hw hk hu hv.2 he.2)
 theorem kgoodEntries_all : (es : Entries) → ∀ (kt vt : Ty), plainTy kt = true → plainTy vt = true →
     wfTy kt = true → wfTy vt = true → noUnionElems kt = true → noUnionElems vt = true →
-    kt.isUnion = false → vt.isUnion = false → wfEntries kt vt es = true → KGoodEntries kt vt es
-  | .nil, kt, vt, _, _, _, _, _, _, _, _, _ => kgoodEntries_nil kt vt
-  | .cons k v r, kt, vt, hpk, hpv, hwk, hwv, hkk, hkv, huk, huv, hv => by
+    kt.isUnion = false → vt.isUnion = false → wfEntries kt vt es = true → errOKe es = true →
+    KGoodEntries kt vt es
+  | .nil, kt, vt, _, _, _, _, _, _, _, _, _, _ => kgoodEntries_nil kt vt
+  | .cons k v r, kt, vt, hpk, hpv, hwk, hwv, hkk, hkv, huk, huv, hv, he => by
     simp only [wfEntries, Bool.and_eq_true] at hv
-    exact kgoodEntries_cons kt vt k v r hpk hpv huk huv (kgood_all k kt hpk hwk hkk hv.1.1)
-      (kgood_all v vt hpv hwv hkv hv.1.2) (kgoodEntries_all r kt vt hpk hpv hwk hwv hkk hkv huk huv hv.2)
+    simp only [errOKe, Bool.and_eq_true] at he
+    exact kgoodEntries_cons kt vt k v r hpk hpv huk huv (kgood_all k kt hpk hwk hkk hv.1.1 he.1.1)
+      (kgood_all v vt hpv hwv hkv hv.1.2 he.1.2)
+      (kgoodEntries_all r kt vt hpk hpv hwk hwv hkk hkv huk huv hv.2 he.2)
 end
 
 theorem nameOf_bound (fst : FState) (n : Name) (u : Ty) (hn : n ≠ [])
@@ -426,13 +447,13 @@ theorem nameOf_bound (fst : FState) (n : Name) (u : Ty) (hn : n ≠ [])
     tables are left as they are. -/
 theorem named_later (fst : FState) (a0 : AState) (n : Name) (u : Ty) (v' : Val)
     (hp : plainTy u = true) (hw : wfTy u = true) (hk : noUnionElems u = true) (hen : enumSyms u = none)
-    (hv : wfVal u v' = true) (hnn : v'.isNull = false)
+    (hv : wfVal u v' = true) (hnn : v'.isNull = false) (herr : errOK v' = true)
     (hname : fst.nameOf (.named n u) = some n) (hhas : fst.hasName (.named n u) = true)
     (ha : alookup n a0.names = some (.named n u)) :
     (fmtTop fst (.named n u) (.named v')).1 = fst ∧
     analyzeTop a0 (fmtTop fst (.named n u) (.named v')).2 = .ok (a0, (.named n u, .named v')) := by
   have hcast : CastOf (.named n u) u := ⟨by simp [Ty.under, under_plain u hp], fun h => absurd hen h⟩
-  obtain ⟨any, ds, hf, hd, hB⟩ := kgood_all v' u hp hw hk hv false fst a0 (.named n u) hcast
+  obtain ⟨any, ds, hf, hd, hB⟩ := kgood_all v' u hp hw hk hv herr false fst a0 (.named n u) hcast
   have hfmt : fmtTop fst (.named n u) (.named v') = (fst, mkVal any (ds ++ [.cast (.name n)])) := by
     unfold fmtTop
     simp only [hhas, implied, Val.isNull]
